@@ -506,7 +506,12 @@ class cleanup_functools_wrapper(object):
 
 def autoforwards_function(func, args, kwargs):
     with cleanup_functools_wrapper(func):
-        sig = _signatures.signature(func)
+        try:
+            sig = _signatures.signature(func)
+        except (ValueError, TypeError):
+            # eg. a functools.lru_cache wrapper: without its __wrapped__
+            # it is a builtin callable without signature
+            raise UnknownForwards
     if not any_params_star(sig):
         raise UnknownForwards
     func_ast = _util.get_ast(func)
